@@ -130,7 +130,9 @@ func (enc *xmlWriter) ByteString(tag int, str []byte) {
 }
 
 func (enc *xmlWriter) DateTime(tag int, date time.Time) {
-	enc.encode(TypeDateTime, tag, date.Format(time.RFC3339))
+	// Always in UTC: in the value's own location, an instant of year 9999 (or 0) may
+	// need a five-digit (or negative) year, which RFC 3339 cannot express.
+	enc.encode(TypeDateTime, tag, date.UTC().Format(time.RFC3339))
 }
 
 func (enc *xmlWriter) Interval(tag int, interval time.Duration) {
